@@ -19,7 +19,7 @@
 (* The pre-pass (lib/nodetrace.py) maps epochs to their ranks and costs to *)
 (* integers and drops events of other subsystems.                          *)
 (***************************************************************************)
-EXTENDS NetCore, Json
+EXTENDS NetCore, AdsCore, Json
 
 Trace == ndJsonDeserialize("trace.ndjson")
 
@@ -28,10 +28,11 @@ VARIABLES ns,       \* NetCore node state
           pend,     \* session label -> last routing update received on it (not yet judged)
           prelay,   \* ids accepted (or adopted as duplicate notice) and not yet relayed
           lastOwn,  \* ids of the own updates made so far (several can be in flight: tick and initial-connect goroutines)
+          ads,      \* AdsCore state of the node (advertisement table and withdrawal memory)
           duty,     \* what the duplicate-node logic still owes: "die" and/or epochs for which a notice must be sent
           l, skip
 
-vars == <<ns, sess, pend, prelay, lastOwn, duty, l, skip>>
+vars == <<ns, sess, pend, prelay, lastOwn, ads, duty, l, skip>>
 
 SeqSet(s) == {s[i] : i \in 1..Len(s)}
 E == Trace[l]
@@ -39,7 +40,7 @@ DieMark == 999999   \* element of `duty` meaning "this instance must shut down" 
 
 NoU == Update("", "", 0, 0, EmptyF, "", 0)
 
-TInit == /\ ns = NewNode("", 0) /\ sess = EmptyF /\ pend = EmptyF /\ prelay = {} /\ lastOwn = {} /\ duty = {}
+TInit == /\ ns = NewNode("", 0) /\ sess = EmptyF /\ pend = EmptyF /\ prelay = {} /\ lastOwn = {} /\ duty = {} /\ ads = NewAds
          /\ l = 1 /\ skip = TRUE
 
 Report(d) == d = {} \/ PrintT(<<"DIFF", l, E.ev, d>>)
@@ -50,7 +51,7 @@ Advance(d) == /\ l' = l + 1
               /\ Report(d)
               /\ PrintT(<<"CLASS", E.ev>>)
 
-Keep == UNCHANGED <<ns, sess, pend, prelay, lastOwn, duty>>
+Keep == UNCHANGED <<ns, sess, pend, prelay, lastOwn, duty, ads>>
 
 IsEv(e) == l <= Len(Trace) /\ E.ev = e
 
@@ -60,7 +61,7 @@ Unpaid == IF skip THEN {} ELSE (IF DieMark \in duty /\ ns.alive THEN {"duplicate
 TReset == /\ IsEv("reset")
           /\ (IF Unpaid = {} THEN TRUE ELSE PrintT(<<"DIFF", l, "end_of_instance", Unpaid>>))
           /\ ns' = NewNode(E.self, E.epoch)
-          /\ sess' = EmptyF /\ pend' = EmptyF /\ prelay' = {} /\ lastOwn' = {} /\ duty' = {}
+          /\ sess' = EmptyF /\ pend' = EmptyF /\ prelay' = {} /\ lastOwn' = {} /\ duty' = {} /\ ads' = NewAds
           /\ l' = l + 1 /\ skip' = FALSE
 
 Skipped == /\ l <= Len(Trace) /\ E.ev # "reset" /\ (skip \/ ~ns.alive)
@@ -72,7 +73,7 @@ CostFor(s, peer) == IF Has(sess[s].nodecost, peer) THEN sess[s].nodecost[peer] E
 
 TSessStart == /\ Live("sess_start")
               /\ sess' = Put(sess, E.sess, [phase |-> "fresh", peer |-> "", cost |-> E.cost, allowany |-> E.allowany, allow |-> SeqSet(E.allow), nodecost |-> E.nodecost])
-              /\ UNCHANGED <<ns, pend, prelay, lastOwn, duty>>
+              /\ UNCHANGED <<ns, pend, prelay, lastOwn, duty, ads>>
               /\ Advance({})
 
 TRecv ==
@@ -83,7 +84,7 @@ TRecv ==
          lists == known /\ sess[E.sess].phase = "est" /\ E.hasu /\ E.u.fwd = peer /\ E.u.node = peer /\ Has(E.u.conns, ns.id)
      IN /\ pend' = IF E.hasu THEN Put(pend, E.sess, E.u) ELSE Del(pend, E.sess)
         /\ ns' = IF lists /\ Has(ns.rest, peer) THEN [ns EXCEPT !.rest[peer] = TRUE] ELSE ns
-        /\ UNCHANGED <<sess, prelay, lastOwn, duty>>
+        /\ UNCHANGED <<sess, prelay, lastOwn, duty, ads>>
         /\ Advance(d)
 
 TReject ==
@@ -114,34 +115,34 @@ TConnAdd ==
                    \cup (IF E.cost # CostFor(s, u.fwd) THEN {"cost"} ELSE {})
      IN /\ ns' = EstConn(ns, E.peer, E.cost)
         /\ sess' = IF Has(sess, s) THEN [sess EXCEPT ![s].peer = E.peer] ELSE sess
-        /\ UNCHANGED <<pend, prelay, lastOwn, duty>>
+        /\ UNCHANGED <<pend, prelay, lastOwn, duty, ads>>
         /\ Advance(d)
 
 TKnownAdd ==
   /\ Live("known_add")
   /\ LET n2 == EstKnown(ns, E.peer, E.cost)
          d == IF n2.known # E.known THEN {"known"} ELSE {}
-     IN ns' = n2 /\ UNCHANGED <<sess, pend, prelay, lastOwn, duty>> /\ Advance(d)
+     IN ns' = n2 /\ UNCHANGED <<sess, pend, prelay, lastOwn, duty, ads>> /\ Advance(d)
 
 TEstablished ==
   /\ Live("established")
   /\ sess' = IF Has(sess, E.sess) THEN [sess EXCEPT ![E.sess].phase = "est"] ELSE sess
-  /\ UNCHANGED <<ns, pend, prelay, lastOwn, duty>> /\ Advance({})
+  /\ UNCHANGED <<ns, pend, prelay, lastOwn, duty, ads>> /\ Advance({})
 
 TConnDel == /\ Live("conn_del")
             /\ ns' = RemConn(ns, E.peer)
-            /\ UNCHANGED <<sess, pend, prelay, lastOwn, duty>> /\ Advance({})
+            /\ UNCHANGED <<sess, pend, prelay, lastOwn, duty, ads>> /\ Advance({})
 
 TKnownDel ==
   /\ Live("known_del")
   /\ LET n2 == RemKnown(ns, E.peer)
          d == IF n2.known # E.known THEN {"known"} ELSE {}
-     IN ns' = n2 /\ UNCHANGED <<sess, pend, prelay, lastOwn, duty>> /\ Advance(d)
+     IN ns' = n2 /\ UNCHANGED <<sess, pend, prelay, lastOwn, duty, ads>> /\ Advance(d)
 
 TSessEnd == /\ Live("sess_end")
             /\ sess' = IF Has(sess, E.sess) THEN [sess EXCEPT ![E.sess].phase = "closed"] ELSE sess
             /\ pend' = Del(pend, E.sess)
-            /\ UNCHANGED <<ns, prelay, lastOwn, duty>> /\ Advance({})
+            /\ UNCHANGED <<ns, prelay, lastOwn, duty, ads>> /\ Advance({})
 
 \* an update naming this node as origin (1459-1480): same epoch -> ours, ignore; it suspects OUR epoch -> we are the
 \* later duplicate and must shut down; newer epoch -> the other one is a duplicate, say so; older -> ignore
@@ -151,19 +152,40 @@ TRuSelf ==
              ELSE IF E.susp = ns.epoch THEN duty \cup {DieMark}
              ELSE IF E.epoch > ns.epoch /\ ns.conn # EmptyF THEN duty \cup {E.epoch}
              ELSE duty
-  /\ UNCHANGED <<ns, sess, pend, prelay, lastOwn>> /\ Advance({})
+  /\ UNCHANGED <<ns, sess, pend, prelay, lastOwn, ads>> /\ Advance({})
 
 TRuSeen ==
   /\ Live("ru_seen")
   /\ LET d == IF E.hit # (E.id \in ns.seen) THEN {"seen_hit"} ELSE {}
      IN /\ ns' = [ns EXCEPT !.seen = @ \cup {E.id}]
-        /\ UNCHANGED <<sess, pend, prelay, lastOwn, duty>> /\ Advance(d)
+        /\ UNCHANGED <<sess, pend, prelay, lastOwn, duty, ads>> /\ Advance(d)
+
+\* ---- service advertisements (AdsCore): every event under serviceAdsLock
+TAdLocal ==
+  /\ Live("ad_local")
+  /\ ads' = LocalOpen(ads, ns.id, E.svc, E.time, E.ctype, "")
+  /\ UNCHANGED <<ns, sess, pend, prelay, lastOwn, duty>> /\ Advance({})
+
+TAdWithdraw ==
+  /\ Live("ad_withdraw")
+  /\ ads' = LocalClose(ads, ns.id, E.svc, E.time)
+  /\ UNCHANGED <<ns, sess, pend, prelay, lastOwn, duty>> /\ Advance({})
+
+AdClassOf(c) == IF c \in {"stored", "replaced", "deleted", "cancel_unknown"} THEN "applied" ELSE c
+
+TAdRecv ==
+  /\ Live("ad_recv")
+  /\ LET m == Msg(E.owner, E.svc, E.time, E.cancel, E.ctype, "")
+         r == RecvAd(ads, m)
+         d == IF AdClassOf(r.class) # E.result THEN {"ad_" \o r.class \o "_but_code_" \o E.result} ELSE {}
+     IN /\ ads' = r.st
+        /\ UNCHANGED <<ns, sess, pend, prelay, lastOwn, duty>> /\ Advance(d)
 
 TSeenExpire ==
   /\ Live("seen_expire")
   /\ LET d == IF E.id \notin ns.seen THEN {"expired_id_was_not_seen"} ELSE {}
      IN /\ ns' = [ns EXCEPT !.seen = @ \ {E.id}]
-        /\ UNCHANGED <<sess, pend, prelay, lastOwn, duty>> /\ Advance(d)
+        /\ UNCHANGED <<sess, pend, prelay, lastOwn, duty, ads>> /\ Advance(d)
 
 TRuDup ==
   /\ Live("ru_dupnotice")
@@ -172,7 +194,7 @@ TRuDup ==
          d == (IF E.hasinfo # Has(n2.info, E.origin) THEN {"info_presence"} ELSE {})
               \cup (IF E.hasinfo /\ Has(n2.info, E.origin) /\ n2.info[E.origin] # E.info THEN {"info"} ELSE {})
      IN /\ ns' = n2 /\ prelay' = prelay \cup {E.id}
-        /\ UNCHANGED <<sess, pend, lastOwn, duty>> /\ Advance(d)
+        /\ UNCHANGED <<sess, pend, lastOwn, duty, ads>> /\ Advance(d)
 
 TRuApply ==
   /\ Live("ru_apply")
@@ -188,11 +210,13 @@ TRuApply ==
               \cup (IF E.origin = ns.id THEN {"applied_own_origin"} ELSE {})
      IN /\ ns' = n2
         /\ prelay' = IF acc THEN prelay \cup {E.id} ELSE prelay
-        /\ UNCHANGED <<sess, pend, lastOwn, duty>> /\ Advance(d)
+        /\ UNCHANGED <<sess, pend, lastOwn, duty, ads>> /\ Advance(d)
 
 TFlood ==
   /\ Live("flood")
-  /\ IF E.mtype # 1 \/ ~E.hasu THEN Keep /\ Advance({})
+  /\ IF E.mtype = 2
+     THEN Keep /\ Advance(IF SeqSet(E.targets) # (DOMAIN ns.conn) \ {E.exclude} THEN {"ad_relay_targets"} ELSE {})
+     ELSE IF E.mtype # 1 \/ ~E.hasu THEN Keep /\ Advance({})
      ELSE LET own == E.u.node = ns.id
               d == (IF SeqSet(E.targets) # (DOMAIN ns.conn) \ {E.exclude} THEN {"targets"} ELSE {})
                    \cup (IF E.exclude # "" /\ E.exclude \in SeqSet(E.targets) THEN {"relayed_back"} ELSE {})
@@ -201,7 +225,7 @@ TFlood ==
                    \cup (IF ~own /\ E.u.fwd # ns.id THEN {"forwarder_not_rewritten"} ELSE {})
                    \cup (IF ~own /\ E.exclude = "" THEN {"relay_without_exclusion"} ELSE {})
           IN /\ prelay' = IF own THEN prelay ELSE prelay \ {E.u.id}
-             /\ UNCHANGED <<ns, sess, pend, lastOwn, duty>> /\ Advance(d)
+             /\ UNCHANGED <<ns, sess, pend, lastOwn, duty, ads>> /\ Advance(d)
 
 TMkUpdate ==
   /\ Live("mk_update")
@@ -210,7 +234,7 @@ TMkUpdate ==
               \cup (IF E.susp # 0 /\ E.susp \notin duty THEN {"duplicate_notice_without_cause"} ELSE {})
      IN /\ ns' = [ns EXCEPT !.seq = E.seq] /\ lastOwn' = lastOwn \cup {E.id}
         /\ duty' = duty          \* several sessions may each have seen the newer epoch: the cause stays on record
-        /\ UNCHANGED <<sess, pend, prelay>> /\ Advance(d)
+        /\ UNCHANGED <<sess, pend, prelay, ads>> /\ Advance(d)
 
 TRebuild ==
   /\ Live("rebuild")
@@ -220,7 +244,7 @@ TRebuild ==
 
 TShutdown == /\ Live("shutdown")
              /\ ns' = [ns EXCEPT !.alive = FALSE]
-             /\ UNCHANGED <<sess, pend, prelay, lastOwn, duty>> /\ Advance({})
+             /\ UNCHANGED <<sess, pend, prelay, lastOwn, duty, ads>> /\ Advance({})
 
 TOther == /\ Live("other") /\ Keep /\ Advance({})
 
@@ -236,7 +260,7 @@ THStatus ==
 
 TNext == TReset \/ Skipped \/ TSessStart \/ TRecv \/ TReject \/ TConnAdd \/ TKnownAdd \/ TEstablished \/ TConnDel
          \/ TKnownDel \/ TSessEnd \/ TRuSelf \/ TRuSeen \/ TRuDup \/ TRuApply \/ TFlood \/ TMkUpdate \/ TRebuild
-         \/ TShutdown \/ TOther \/ THStatus \/ TSeenExpire
+         \/ TShutdown \/ TOther \/ THStatus \/ TSeenExpire \/ TAdLocal \/ TAdWithdraw \/ TAdRecv
 
 TSpec == TInit /\ [][TNext]_vars
 
